@@ -135,7 +135,7 @@ def run(ctx):
                     '(zentry / SparseLin.dense); validated on every assembled case by comparing with the canonical form of the implementation matrix',
                     'plane-mode strings are mapped to the enum {strain, stress} by the harness table (substring rule of get_D not modelled)']
     vlib.audit(ctx)
-    if not vlib.ensure_static(ctx):
+    if not vlib.ensure_static(ctx, ['theories/Props/C08.vo', 'theories/Base/SpCanon.vo', 'theories/Base/Cmp.vo', 'theories/Model/Assembly.vo', 'theories/Model/ElemMat.vo']):
         return
     vlib.check_props(ctx)
 
